@@ -2,7 +2,7 @@ SPECIFICATION Spec
 CONSTANTS
   BUF = 32
   MaxLines = 5
-  LimitN = 5
+  LimitN = 3
   MaxFds = 0
   Guided = TRUE
   TSet = {1, 2, 5, 8, 10, 12, 14, 19, 21, 22}
